@@ -32,4 +32,7 @@ Spec == Init /\ [][Emit]_vars
 EndsRight == LET s == case[1] e == case[2] dt == case[3] n == NSteps(s, e, dt) IN
              /\ RLe(e, T(s, dt, n))
              /\ n > 0 => RLt(T(s, dt, n-1), e)
+\* asking for an end year that is itself the last grid point changes nothing: the end-year rounding is idempotent, so settings can be
+\* saved and restored (calibrate and run_optimization shorten the end year and assign the old value back afterwards)
+Fixpoint == LET s == case[1] e == case[2] dt == case[3] n == NSteps(s, e, dt) IN NSteps(s, T(s, dt, n), dt) = n
 ====
